@@ -103,7 +103,15 @@ def run(ctx):
                 "two operations, one of them start; (c) round 5: Tub-level events {connectTo, startService, stopService, turn of the "
                 "eventual queue, event e of Reconnector i} on a REAL Tub with up to 5 Reconnectors (only Tub.getReference is replaced "
                 "by one handing out Deferreds the driver fires): 8 fixed witnesses, ALL histories up to the tier's length with <= 2 "
-                "Reconnectors, seeded long ones; (d) fixed failure streaks of 720/1500 (5000) consecutive failed attempts in 5 variants")
+                "Reconnectors, seeded long ones; (d) fixed failure streaks of 720/1500 (5000) consecutive failed attempts in 5 variants; (e) round 6: "
+                "the knobs of the Reconnector (verbose logging switched on on the instance, as foolscap's tests do; jitter 0 / None; "
+                "factor Phi with other maxDelay / initialDelay / jitter through a subclass): 6 fixed witnesses that walk through every "
+                "method and branch + the whole corpus under every knob setting, ALL atomic sequences up to the tier's length with "
+                "logging on (shorter for the tunables), ALL turn-structure sequences and ALL Tub-level histories up to a shorter "
+                "length with logging on, every seeded long / turn-structure history once more under one knob setting, real "
+                "Tub/Broker histories and scenarios with logging on; oracle as everywhere PLUS: with logging on every observation "
+                "(flags, ordered outputs, delay, timer) equals the one of the same history with the defaults; with other tunables "
+                "the flags and ordered outputs do")
     ctx.assumptions = [
         "delays are exact rationals in the model, IEEE doubles in the code: compared with 1e-9 relative tolerance (+1 ns)",
         "random.normalvariate(mu, sigma) is modelled as mu + z*sigma with the draw z an input; the range theorem assumes "
@@ -120,6 +128,9 @@ def run(ctx):
         "in-memory network with traffic of every kind in flight at the loss (modelled-not-verified: Twisted's Deferred and DelayedCall)",
         "logging, _last_failure and the informational ReconnectionInfo timestamps (lastAttempt / nextAttempt) are not modelled "
         "(white-listed statements); ReconnectionInfo.state is (info_agrees)",
+        "the model has the default knobs (verbose off; maxDelay/initialDelay/factor/jitter as translated from the class body); that "
+        "switching logging on or choosing other tunables leaves the state machine alone is checked on the real class by the direct "
+        "oracle and a differential against the default run (round 6), not proved",
         "'after stopConnecting returned' is judged on the order of the actual invocations (flag set when the call returns, "
         "checked inside the user callback, getReference, callLater and notifyOnDisconnect), after every operation and "
         "after a final drain of the eventual queue",
@@ -136,6 +147,7 @@ def run(ctx):
     corpus = []
     corpus_micro = []
     corpus_real = []
+    corpus_cbr, corpus_micro_cbr = [], []       # the same, with the cb_raises flag (re-run under the knob settings, 3c)
     for p in sorted(glob.glob(os.path.join(common.VERIF, "corpus", "C16", "*.json"))):
         j = json.load(open(p))
         if "real_history" in j:
@@ -143,30 +155,35 @@ def run(ctx):
             continue
         if "micro_operations" in j:
             ops = [impl.micro_from_json(o) for o in j["micro_operations"]]
-            groups, viol, done = impl.run_micro(ops, cb_raises=j.get("cb_raises", False))
+            groups, viol, done = impl.run_micro(ops, cb_raises=j.get("cb_raises", False), options=j.get("options"))
             ctx.case(["corpus", os.path.basename(p)], nontrivial=True)
             ctx.hist("source", "corpus")
-            if done != len(ops):
+            if done != len(ops) and not viol:
                 ctx.fail("corpus-not-permitted", "corpus case %s: operation %d is not enabled on the real object" % (p, done),
                          replay=dict(file=p), has_input=False)
             elif viol:
-                ctx.fail(viol.sig, viol.what + "  [operations: %s]" % " ".join(impl.micro_name(o) for o in ops),
-                         replay=dict(micro_operations=j["micro_operations"], corpus=os.path.basename(p)))
-            else:
+                ctx.fail(viol.sig, viol.what + "  [operations: %s; knobs: %s]"
+                         % (" ".join(impl.micro_name(o) for o in ops), impl.options_name(j.get("options"))),
+                         replay=dict(micro_operations=j["micro_operations"], corpus=os.path.basename(p), options=j.get("options")))
+            elif not j.get("options"):
                 corpus_micro.append((ops, groups))
+                corpus_micro_cbr.append((ops, groups, j.get("cb_raises", False)))
             continue
         evs = [impl.ev_from_json(e) for e in j["events"]]
-        obs, viol, done = impl.run_sequence(evs, cb_raises=j.get("cb_raises", False))
+        obs, viol, done = impl.run_sequence(evs, cb_raises=j.get("cb_raises", False), options=j.get("options"))
         ctx.case(["corpus", os.path.basename(p)], nontrivial=True)
         ctx.hist("source", "corpus")
-        if done != len(evs):
+        if done != len(evs) and not viol:
             ctx.fail("corpus-not-permitted", "corpus case %s: event %d is not enabled on the real object" % (p, done),
                      replay=dict(file=p), has_input=False)
             continue
         if viol:
-            report(viol, evs, corpus=os.path.basename(p))
-        else:
+            if j.get("options"):
+                viol.what += "  [knobs: %s]" % impl.options_name(j["options"])
+            report(viol, evs, corpus=os.path.basename(p), options=j.get("options"))
+        elif not j.get("options"):
             corpus.append((evs, obs))
+            corpus_cbr.append((evs, obs, j.get("cb_raises", False)))
 
     # ---- 1. real Tubs on the in-memory network
     for name, sig, good, detail in impl.real_tub_scenarios():
@@ -302,6 +319,7 @@ def run(ctx):
 
     # ---- 3. seeded long sequences (random draws, random failure types, raising user callback)
     longs = []
+    longs_cbr = []
     nlong = ctx.n(150, 1500)
     for k in range(nlong):
         L = ctx.rng.randint(12, 60)
@@ -332,6 +350,7 @@ def run(ctx):
             report(v2 or viol, shrunk if v2 else evs, cb_raises=cbr)
         else:
             longs.append((evs, obs))
+            longs_cbr.append((evs, obs, cbr))
             nsync, v3 = impl.run_sync_variant(evs, obs, cb_raises=cbr)
             ctx.hist("synchronous_completions", min(nsync, 5))
             if v3:
@@ -340,10 +359,13 @@ def run(ctx):
     # ---- 3a. fixed witnesses of the family "unbounded runs of consecutive failures" (weeks of outage): the back-off
     #      must stay a finite number in range for EVERY number of failures in a row (double range: e**710, phi**1475)
     streaks = []
+    streak_720 = []
     for name, evs in impl.streak_witnesses(ctx.n([720, 1500], [720, 1500, 5000])):
         obs, viol, done = impl.run_sequence(evs)
         ctx.case(["streak", name], nontrivial=True)
         ctx.hist("source", "failure-streak")
+        if viol is None and name.startswith("streak-720-"):
+            streak_720.append((name, evs, obs))
         if viol:
             nfail = len([e for e in evs[:done] if e[0] == "fail"])
             ctx.fail(viol.sig, viol.what[:900] + "  [%s: start, then %d consecutive failed attempts each followed by the expiry "
@@ -359,6 +381,7 @@ def run(ctx):
     #      (same turn right after an attempt's Deferred fired, between drains of the eventual queue, from inside the
     #      user callback / the user's disconnect handler, from an event queued in the same batch)
     micro = list(corpus_micro)
+    micro_cbr = []
     worst = {}
 
     def micro_report(viol, path, cbr=False):
@@ -409,9 +432,13 @@ def run(ctx):
             micro_report(v2 or viol, shrunk if v2 else ops, cbr)
         else:
             micro.append((ops, groups))
+            micro_cbr.append((ops, groups, cbr))
     for k, (viol, path, cbr) in sorted(worst.items()):
         ctx.fail(viol.sig, viol.what + "  [operations: %s]" % " ".join(impl.micro_name(o) for o in path),
                  replay=dict(micro_operations=[impl.micro_json(o) for o in path], cb_raises=cbr))
+
+    # ---- 3c. round 6: the knobs (logging on; other tunables) do not change the state machine
+    knobs(ctx, impl, nodes, corpus_cbr, longs_cbr, corpus_micro_cbr, micro_cbr, mtree, tubs, real, streak_720)
 
     # ---- 4. correspondence with the Coq model
     model_ok = ok
@@ -424,6 +451,231 @@ def run(ctx):
     if not ok and len(ctx.failures) == before:
         ctx.fail("proof-broken", "theorem closure props/C16.vo no longer builds against the regenerated gen/ReconnectorGen.v:\n"
                  + log[-2500:], replay=dict(log=log[-6000:]), has_input=False)
+
+
+def knobs(ctx, impl, nodes, corpus, longs, corpus_micro, micro, mtree, tubs, real, streak_720):
+    """Round 6 (seed C16-r6s2: a verbose-only log line in _retry reads self._last_failure, which is None on the path from
+    _disconnected; the exception is swallowed by the eventual queue and the Reconnector never reconnects).  Family: the knobs
+    of the Reconnector -- `verbose` on the instance; maxDelay / initialDelay / factor / jitter (falsy: no draw) on the class --
+    must leave the state machine alone.  Every generator of the check is run again under knob settings (impl.OPTION_SETS):
+    the oracle is the usual one, evaluated with the tunables read off the real object, plus a differential against the run of
+    the same history with the defaults: logging on -> identical (flags, ordered outputs, delay, timer) after every event;
+    other tunables -> identical flags and ordered outputs."""
+    worst = {}
+
+    def note(viol, size, text, replay):
+        if viol.sig not in worst or size < worst[viol.sig][0]:
+            worst[viol.sig] = (size, viol, text, replay)
+
+    def differ(oname, logging_only, seq, base, got, what):
+        """base/got: lists of observations (None = not recorded) -> Violation or None"""
+        width = 4 if logging_only else 2
+        for i, (a, b) in enumerate(zip(base, got)):
+            if a is None or b is None:
+                continue
+            if tuple(a[:width]) != tuple(b[:width]):
+                return impl.Violation("oracle/knob-changes-behaviour", "with the knobs [%s] the Reconnector does not do what it does "
+                                      "on the same history with the defaults: after %s %d (%s) it is in %s = %r, with the defaults in %r"
+                                      % (oname, what, i, seq[i] if i < len(seq) else "the final drain",
+                                         "(flags, outputs, delay, timer)" if logging_only else "(flags, outputs)",
+                                         tuple(b[:width]), tuple(a[:width])))
+        if len(base) != len(got):
+            return impl.Violation("oracle/knob-changes-behaviour", "with the knobs [%s] the Reconnector permits %d of the %d %ss "
+                                  "that it permits with the defaults" % (oname, len(got), len(base), what))
+        return None
+
+    def judge_events(evs, cbr, options, oname, logging_only, base_obs=None):
+        if base_obs is None:
+            base_obs, bv, bd = impl.run_sequence(evs, cb_raises=cbr)
+            if bv is not None or bd != len(evs):
+                return None
+        obs, viol, done = impl.run_sequence(evs, cb_raises=cbr, options=options)
+        return viol or differ(oname, logging_only, [e[0] for e in evs], base_obs, obs, "event")
+
+    def run_events(evs, base_obs, cbr, src, sets, shrink=False):
+        for sname, options, logging_only in sets:
+            oname = impl.options_name(options)
+            ctx.case(["knobs", sname] + [impl.ev_json(e) for e in evs] + [cbr], nontrivial=True)
+            ctx.hist("source", src)
+            ctx.hist("knobs", sname)
+            viol = judge_events(evs, cbr, options, oname, logging_only, base_obs)
+            if viol is None:
+                continue
+            seq = evs
+            if shrink:
+                seq = common.shrink_list(evs, lambda c: (lambda v: v is not None and v.sig == viol.sig)(
+                    judge_events(c, cbr, options, oname, logging_only)))
+                v2 = judge_events(seq, cbr, options, oname, logging_only)
+                viol, seq = (v2, seq) if v2 else (viol, evs)
+            note(viol, len(seq), "  [knobs: %s; events: %s]" % (oname, " ".join(e[0] for e in seq)),
+                 dict(events=[impl.ev_json(e) for e in seq], options=options, cb_raises=cbr))
+
+    def run_micro(ops, base_groups, cbr, src, sets):
+        for sname, options, logging_only in sets:
+            oname = impl.options_name(options)
+            groups, viol, done = impl.run_micro(ops, cb_raises=cbr, options=options)
+            ctx.case(["knobs", sname, "micro"] + [impl.micro_json(o) for o in ops] + [cbr], nontrivial=True)
+            ctx.hist("source", src)
+            ctx.hist("knobs", sname)
+            if viol is None:
+                viol = differ(oname, logging_only, [impl.micro_name(o) for o in ops], [g[1] for g in base_groups],
+                              [g[1] for g in groups], "operation")
+            if viol is not None:
+                note(viol, len(ops), "  [knobs: %s; operations: %s]" % (oname, " ".join(impl.micro_name(o) for o in ops)),
+                     dict(micro_operations=[impl.micro_json(o) for o in ops], options=options, cb_raises=cbr))
+
+    all_sets = impl.OPTION_SETS
+    vname, voptions, _ = all_sets[0]            # logging on, everything else default
+    # (i) fixed witnesses (every method, every branch) and the whole corpus, under every knob setting
+    for name, evs in impl.option_witnesses():
+        base, bviol, bdone = impl.run_sequence(evs)
+        ctx.case(["knob-witness", name], nontrivial=True)
+        if bviol is not None:
+            ctx.fail(bviol.sig, bviol.what + "  [knob witness %s with the defaults]" % name,
+                     replay=dict(events=[impl.ev_json(e) for e in evs]))
+        elif bdone != len(evs):
+            ctx.fail("corpus-not-permitted", "knob witness %s: event %d is not enabled on the real object" % (name, bdone),
+                     replay=dict(witness=name), has_input=False)
+        else:
+            run_events(evs, base, False, "knob-witness", all_sets)
+    for evs, obs, cbr in corpus:
+        run_events(evs, obs, cbr, "knob-corpus", all_sets)
+    for ops, groups, cbr in corpus_micro:
+        run_micro(ops, groups, cbr, "knob-corpus", all_sets)
+    # (ii) ALL permitted atomic sequences: logging on up to one less than the main enumeration, the tunables shorter;
+    #      every node compared with the node of the default enumeration
+    def key(path):
+        return json.dumps([impl.ev_json(e) for e in path])
+    base_nodes = dict((key(p), o) for p, o in nodes)
+    kdepth = {True: ctx.n(7, 9), False: ctx.n(5, 7)}
+    nk = [0]
+    for sname, options, logging_only in all_sets:
+        oname = impl.options_name(options)
+        seen = set()
+        bad = [0]
+
+        def on_node(path, o, viol):
+            nk[0] += 1
+            seen.add(key(path))
+            ctx.case(["knobs", sname] + [impl.ev_json(e) for e in path], nontrivial=len(path) >= 2)
+            ctx.hist("knobs", sname)
+            if viol is None:
+                b = base_nodes.get(key(path))
+                if b is None:
+                    viol = impl.Violation("oracle/knob-changes-behaviour", "with the knobs [%s] the Reconnector permits a "
+                                          "history that it does not permit with the defaults" % oname)
+                else:
+                    viol = differ(oname, logging_only, [e[0] for e in path], [None] * (len(path) - 1) + [b],
+                                  [None] * (len(path) - 1) + [o], "event")
+            if viol is not None:
+                bad[0] += 1
+                note(viol, len(path), "  [knobs: %s; events: %s]" % (oname, " ".join(e[0] for e in path)),
+                     dict(events=[impl.ev_json(e) for e in path], options=options))
+        d = kdepth[logging_only]
+        impl.dfs_real(d, on_node, options=options)
+        missing = [p for p, o in nodes if len(p) <= d and key(p) not in seen]
+        if missing and not bad[0]:
+            p = min(missing, key=len)
+            note(impl.Violation("oracle/knob-changes-behaviour", "with the knobs [%s] the last event of this history, which the "
+                                "Reconnector permits with the defaults, is not possible (nothing is there to fire)" % oname),
+                 len(p), "  [knobs: %s; events: %s]" % (oname, " ".join(e[0] for e in p)),
+                 dict(events=[impl.ev_json(e) for e in p], options=options))
+    ctx.extra["knob_enumerated_sequences"] = nk[0]
+    # (iii) ALL turn-structure sequences (shorter) with logging on, compared node by node with the default tree
+    base_micro = {}
+
+    def mkey(path):
+        return json.dumps([impl.micro_json(o) for o in path])
+
+    def walk(n):
+        base_micro[mkey(n["path"])] = n["obs"]
+        for k in n["kids"]:
+            walk(k)
+    for root in mtree:
+        walk(root)
+
+    def mnote(viol, path):
+        note(viol, len(path), "  [knobs: %s; operations: %s]" % (impl.options_name(voptions), " ".join(impl.micro_name(o) for o in path)),
+             dict(micro_operations=[impl.micro_json(o) for o in path], options=voptions))
+
+    def on_mnode(path, viol):
+        ctx.case(["knobs", vname, "micro"] + [impl.micro_json(o) for o in path], nontrivial=len(path) >= 2)
+        if viol is not None:
+            mnote(viol, path)
+
+    def on_groups(path, groups):
+        b = base_micro.get(mkey(path))
+        if b is None:
+            return
+        v = differ(impl.options_name(voptions), True, [impl.micro_name(o) for o in path], [b], [groups[len(path) - 1][1]], "operation")
+        if v is not None:
+            v.what = v.what.replace("after operation 0", "after the last operation")
+            mnote(v, path)
+    impl.dfs_micro(ctx.n(5, 6), on_mnode, options=voptions, on_groups=on_groups)
+    # (iv) every seeded history once more, under one knob setting (round robin); the 720-failure streaks with logging on
+    for k, (evs, obs, cbr) in enumerate(longs):
+        run_events(evs, obs, cbr, "knob-seeded", [all_sets[k % len(all_sets)]], shrink=True)
+    for k, (ops, groups, cbr) in enumerate(micro):
+        run_micro(ops, groups, cbr, "knob-seeded", [all_sets[k % len(all_sets)]])
+    for name, evs, obs in streak_720:
+        run_events(evs, obs, False, "knob-streak", [all_sets[0], all_sets[3]])
+    # (v) the REAL Tub with all its Reconnectors, logging switched on in each of them: the fixed witnesses, ALL histories
+    #     (shorter), every fourth seeded one; observations (list, queue, flags of every Reconnector) as with the defaults
+    def tkey(h):
+        return json.dumps([impl.tev_json(e) for e in h])
+    base_tubs = dict((tkey(h), obs) for h, obs in tubs)
+
+    def tub_judge(h, obs, viol):
+        ctx.case(["knobs", vname, "tub"] + [impl.tev_json(e) for e in h], nontrivial=len(h) >= 2)
+        b = base_tubs.get(tkey(h))
+        if viol is None and b is not None and obs != b:
+            i = ([j for j in range(min(len(b), len(obs))) if obs[j] != b[j]] + [min(len(b), len(obs))])[0]
+            viol = impl.Violation("oracle/knob-changes-behaviour", "with verbose=True on every Reconnector the real Tub does not do "
+                                  "what it does with the defaults: after event %d (%s) (raised+2*running+4*shut, reconnectors, queued "
+                                  "starts, flags) = %r, with the defaults %r"
+                                  % (i, impl.tev_name(h[i]) if i < len(h) else "-", obs[i] if i < len(obs) else None,
+                                     b[i] if i < len(b) else None))
+        if viol is not None:
+            note(viol, len(h), "  [knobs: verbose=True; Tub history: %s]" % " ".join(impl.tev_name(e) for e in h),
+                 dict(tub_history=[impl.tev_json(e) for e in h], options=voptions))
+    for h in [h for name, h in tub_witnesses()] + [h for h, obs in tubs if len(h) > 6][::4]:
+        obs, viol, done = impl.run_tub_history(h, verbose=True)
+        ctx.hist("source", "knob-tub")
+        tub_judge(h, obs, viol)
+    impl.dfs_tub(ctx.n(4, 5), lambda path, obs, viol: tub_judge(list(path), obs, viol), verbose=True)
+    # (vi) real Tub/Broker pairs on the in-memory network with logging on: every kind of loss x both stop stages, every
+    #      kind of traffic once, the corpus histories, and the scenarios
+    def rkey(rounds, ss):
+        return json.dumps([[[list(map(list, rd["traffic"])), rd["loss"], bool(rd["turn_before_loss"])] for rd in rounds], ss])
+    base_real = dict((rkey(rounds, ss), groups) for (rounds, ss), groups in real)
+    fixed = [([dict(traffic=[], loss=loss, turn_before_loss=False)] * 2, ss) for loss in impl.LOSSES for ss in ("connected", "connecting")]
+    fixed += [([dict(traffic=[(kind, 1)], loss="b_hangup", turn_before_loss=False)], "connected") for kind in impl.TRAFFIC]
+    for p in sorted(glob.glob(os.path.join(common.VERIF, "corpus", "C16", "*.json"))):
+        j = json.load(open(p))
+        if "real_history" in j:
+            fixed.append(([dict(traffic=[tuple(t) for t in rd["traffic"]], loss=rd["loss"], turn_before_loss=bool(rd["turn_before_loss"]))
+                           for rd in j["real_history"]], j.get("stop_stage", "connected")))
+    for rounds, ss in fixed:
+        groups, viol = impl.run_real_history(rounds, ss, verbose=True)
+        ctx.case(["knobs", vname, "real-stack", impl.real_history_name(rounds, ss)], nontrivial=True)
+        ctx.hist("source", "knob-real-stack")
+        b = base_real.get(rkey(rounds, ss))
+        if viol is None and b is not None:
+            viol = differ("verbose=True", True, ["-"] * len(b), [g[1] for g in b], [g[1] for g in groups], "observation")
+        if viol is not None:
+            note(viol, sum(1 + len(rd["traffic"]) for rd in rounds), "  [knobs: verbose=True; real Tub/Broker history: %s]"
+                 % impl.real_history_name(rounds, ss),
+                 dict(real_history=[dict(traffic=[list(t) for t in rd["traffic"]], loss=rd["loss"],
+                                         turn_before_loss=rd["turn_before_loss"]) for rd in rounds], stop_stage=ss, options=voptions))
+    for sig, (size, viol, text, replay) in sorted(worst.items()):
+        ctx.fail(viol.sig, viol.what + text, replay=replay)
+    for name, sig, good, detail in impl.real_tub_scenarios(verbose=True):
+        ctx.case(["knobs", vname, "real-tub", name], nontrivial=True)
+        ctx.hist("source", "knob-real-tub")
+        if not good:
+            ctx.fail(sig, "real Tub scenario %s with verbose=True on the Reconnector: %s" % (name, detail),
+                     replay=dict(scenario=name, options=voptions))
+    ctx.extra["knob_settings"] = [impl.options_name(o) for _, o, _ in all_sets]
 
 
 def correspond_streaks(ctx, streaks):
